@@ -449,12 +449,26 @@ def _sub_names(tree):
     return names
 
 
+def _names_sub(tree, w, names):
+    """does the word name a sub-command - also in the forms cobra's EnablePrefixMatching / EnableCaseInsensitive permit?"""
+    if w in names:
+        return True
+    if not w or w.startswith("-"):
+        return False
+    if tree.get("caseInsensitive") and any(n.lower() == w.lower() for n in names):
+        return True
+    if tree.get("prefixMatching") and any(n.startswith(w) for n in names):
+        return True
+    return False
+
+
 def _descent_applies(i):
-    names = _sub_names(i.get("tree") or {})
+    tree = i.get("tree") or {}
+    names = _sub_names(tree)
     ws = (i.get("words") or [])[:-1]
     seen_other = False
     for w in ws:
-        if w in names:
+        if _names_sub(tree, w, names):
             if seen_other:
                 return True
         else:
@@ -464,21 +478,34 @@ def _descent_applies(i):
 
 def _descent_neutral(i):
     # the valid path of sub-command names first (children of the command reached so far), every
-    # other word after it; words that merely look like sub-command names are renamed
+    # other word after it; words that merely look like sub-command names are renamed; abbreviated or
+    # differently cased names (cobra's prefix / case-insensitive matching) are written out
     o = copy.deepcopy(i)
-    cmds = (o.get("tree") or {}).get("cmds") or []
-    names = _sub_names(o.get("tree") or {})
+    tree = o.get("tree") or {}
+    cmds = tree.get("cmds") or []
+    names = _sub_names(tree)
     ws, last = o["words"][:-1], o["words"][-1]
     cur, path, rest = 0, [], []
     for w in ws:
-        child = None
-        for k, c in enumerate(cmds):
-            if c.get("parent") == cur and (c["name"] == w or w in (c.get("aliases") or [])):
+        child, full = None, w
+        kids = [(k, c) for k, c in enumerate(cmds) if c.get("parent") == cur]
+        for k, c in kids:
+            if c["name"] == w or w in (c.get("aliases") or []):
                 child = k
-        if child is not None and w in names:
-            path.append(w)
+        if child is None and w and not w.startswith("-"):
+            if tree.get("caseInsensitive"):
+                for k, c in kids:
+                    for n in [c["name"]] + (c.get("aliases") or []):
+                        if n.lower() == w.lower() and child is None:
+                            child, full = k, n
+            if child is None and tree.get("prefixMatching"):
+                hits = [(k, c["name"]) for k, c in kids if any(n.startswith(w) for n in [c["name"]] + (c.get("aliases") or []))]
+                if len(hits) == 1:
+                    child, full = hits[0]
+        if child is not None:
+            path.append(full)
             cur = child
-        elif w in names:
+        elif _names_sub(tree, w, names):
             rest.append("w" + w)
         else:
             rest.append(w)
